@@ -349,6 +349,26 @@ def gen_permutable(rng):
     return ["unite", [core, gen_val(rng, 1)]]
 
 
+UNION_SIZES = [9, 10, 11, 16]  # MultiValuedValue switches to a hashed fast path at 10 members: both sides of the threshold
+
+
+def gen_large_union(rng, raw_ok=True):
+    """a union with 9 / 10 / 11 / 16 distinct members mixing hashable literals, unhashable literals, classes,
+    Annotated literals, sequences and callables"""
+    n = rng.choice(UNION_SIZES)
+    pool = [["known", ["int", k]] for k in range(20, 30)] + [["known", ["str", ch]] for ch in "pqrs"] + \
+           [["known", ["list", 40 + k, [["int", k]]]] for k in range(3)] + [["known", ["dict", 50, []]], ["known", ["set", 51, [["int", 1]]]]] + \
+           [["typed", c] for c in ("int", "str", "float", "A", "C", "bytes", "NoneType")] + \
+           [["annot", ["known", ["int", 3]], [1]], ["annot", ["typed", "B"], [2]], ["known", ["tuple", 60, [["int", 1], ["bool", True]]]],
+            ["known", ["tuple", 61, [["list", 62, []]]]], ["generic", "list", [["typed", "int"]]], ["seq", "tuple", [[False, ["typed", "str"]]]],
+            ["callable", [["typed", "int"]], ["typed", "str"], []], ["callable", [], ["typed", "int"], [["k", ["typed", "int"]]]],
+            ["known", ["none"]], ["known", ["bool", True]], ["known", ["float", 1.5]], ["known", ["e", "a"]], ["known", ["class", "A"]]]
+    members = rng.sample(pool, n)
+    if not any(m[0] == "known" and m[1][0] in ("list", "dict", "set") for m in members):
+        members[rng.randrange(n)] = ["known", ["list", 40, [["int", 0]]]]  # at least one unhashable literal
+    return [rng.choice(["unite", "union"]) if raw_ok else "unite", members]
+
+
 def gen_hidden_tv(rng):
     """a callable whose only type variable sits where Value.walk_values does not look although
     substitute_typevars does (the extra-items type of a closed TypedDict), in parameter or return position"""
@@ -367,6 +387,16 @@ def gen_case(rng, fresh):
         b = variant(a, rng, fresh) if rng.random() < 0.5 else gen_val(rng, 2)
         c = gen_val(rng, 1)
         m = [[i, ["typed", rng.choice(["int", "str"])]] for i in range(3)]
+        a, b, c, m = fix_labels([a, b, c, m])
+        return {"a": a, "b": b, "c": c, "m": m}
+    big = rng.random() < 0.08
+    if big:
+        # large unions as operands; b / c are members, sub-unions or variants, so that unite(a, b, c) stays large
+        a = gen_large_union(rng)
+        pick = rng.random()
+        b = rng.choice(a[1]) if pick < 0.4 else (["unite", rng.sample(a[1], 3)] if pick < 0.7 else variant(a, rng, fresh))
+        c = rng.choice(a[1]) if rng.random() < 0.6 else gen_val(rng, 1)
+        m = [[i, gen_val(rng, 1)] for i in range(3) if rng.random() < 0.5]
         a, b, c, m = fix_labels([a, b, c, m])
         return {"a": a, "b": b, "c": c, "m": m}
     a = gen_permutable(rng) if rng.random() < 0.15 else gen_val(rng, 3)
